@@ -242,6 +242,9 @@ func Exec[C any](s *Spec[C], c C, o *Obs) (f *Failure) {
 	if to == 0 {
 		to = 120 * time.Second
 	}
+	if RaceEnabled {
+		to *= 10
+	}
 	timer := time.AfterFunc(to, func() {
 		b, _ := json.Marshal(c)
 		fmt.Fprintf(os.Stderr, "WATCHDOG: %s/%s case ran longer than %v\ncase: %s\n", s.Property, s.Name, to, trunc(string(b), 4000))
